@@ -179,7 +179,27 @@ func (n *lazyNode) tryAry() bool {
 	return true
 }
 
+func (n *lazyNode) isNull() bool {
+	if n == nil {
+		return true
+	}
+
+	if n.which != eRaw {
+		return false
+	}
+
+	if n.raw == nil {
+		return true
+	}
+
+	return bytes.Equal(n.compact(), []byte("null"))
+}
+
 func (n *lazyNode) equal(o *lazyNode) bool {
+	if n.isNull() || o.isNull() {
+		return n.isNull() && o.isNull()
+	}
+
 	if n.which == eRaw {
 		if !n.tryDoc() && !n.tryAry() {
 			if o.which != eRaw {
@@ -210,14 +230,6 @@ func (n *lazyNode) equal(o *lazyNode) bool {
 
 			if !ok {
 				return false
-			}
-
-			if (v == nil) != (ov == nil) {
-				return false
-			}
-
-			if v == nil && ov == nil {
-				continue
 			}
 
 			if !v.equal(ov) {
@@ -569,6 +581,10 @@ func (p Patch) replace(doc *container, op Operation) error {
 
 	if path == "" {
 		val := op.value()
+
+		if val == nil {
+			return fmt.Errorf("replace operation failed to decode value: %w", ErrMissing)
+		}
 
 		if val.which == eRaw {
 			if !val.tryDoc() {
